@@ -494,6 +494,86 @@ fn check_label(label: &str, format: &str, as_comment: bool) -> Result<(), (Strin
     Ok(())
 }
 
+//------------ source chains -------------------------------------------------
+
+/// A snapshot in which every origin and router key of `ds` is published
+/// under `pubs` trust anchors and asserted by `excs` local exceptions.
+pub fn snapshot_chain(ds: &DataSet, pubs: usize, excs: usize) -> PayloadSnapshot {
+    use rpki::slurm::{
+        BgpsecAssertion, LocallyAddedAssertions, PrefixAssertion, SlurmFile,
+        ValidationOutputFilters, Base64KeyInfo,
+    };
+    let mut config = data::mem_config();
+    config.enable_aspa = true;
+    config.enable_bgpsec = true;
+    let report = routinator::payload::ValidationReport::new(&config);
+    let mut metrics = Metrics::new();
+    for i in 0..pubs {
+        let tal = TalInfo::from_name(format!("ta{i}")).into_arc();
+        metrics.tals.push(routinator::metrics::TalMetrics::new(tal.clone()));
+        report.verif_push_point(
+            tal, Time::utc(2090, 1, 2, 3, 4, 5 + i as u32),
+            ds.origins.iter().copied(), ds.keys.iter().cloned(),
+            std::iter::empty::<(Asn, Vec<Asn>)>()
+        );
+    }
+    let mut prefix = Vec::new();
+    let mut bgpsec = Vec::new();
+    for i in 0..excs {
+        for o in &ds.origins { prefix.push(PrefixAssertion::new(o.prefix, o.asn, Some(format!("comment {i}")))); }
+        for k in &ds.keys {
+            bgpsec.push(BgpsecAssertion::new(
+                k.asn, k.key_identifier,
+                Base64KeyInfo::try_from(k.key_info.as_slice().to_vec()).unwrap(),
+                Some(format!("comment {i}"))
+            ));
+        }
+    }
+    let file = SlurmFile::new(
+        ValidationOutputFilters::new(Vec::new(), Vec::new()),
+        LocallyAddedAssertions::new(prefix, bgpsec)
+    );
+    let exc = LocalExceptions::from_json(&file.to_string(), true).expect("slurm");
+    report.into_snapshot(&exc, &mut metrics)
+}
+
+/// One item per type with a source chain of `pubs` published objects and
+/// `excs` exceptions, in every format.
+fn check_chain(pubs: usize, excs: usize, format: &str) -> Result<(), (String, String)> {
+    let mut ds = DataSet::default();
+    ds.origins.insert(data::v4(10, 0, 0, 0, 8, 8, 1));
+    ds.keys.insert(data::router_key(7, 1, b"\x30\x13key"));
+    let snap = Arc::new(snapshot_chain(&ds, pubs, excs));
+    let metrics = Arc::new(Metrics::new());
+    let none = Sel { asns: vec![], prefixes: vec![], more: false };
+    let (w, _) = render(output_for(&none, 0), &snap, &metrics, format)
+        .map_err(|e| ("render".to_string(), e))?;
+    let class = |c: &str| format!("chain:{format}:{c}");
+    let what = format!("item with {pubs} published and {excs} exception sources");
+    let got = extract(format, &w).map_err(|e| (class("invalid"), format!("{what}: {e}")))?;
+    let want = admitted(&ds, &none, 0, format);
+    if normalise(format, got) != normalise(format, want) {
+        return Err((class("items"), format!("{what}: listed items differ")))
+    }
+    if format == "jsonext" {
+        let v: Value = serde_json::from_str(&w).map_err(|e| (class("invalid"), format!("{what}: {e}")))?;
+        for list in ["roas", "routerKeys"] {
+            for item in v[list].as_array().cloned().unwrap_or_default() {
+                let src = item["source"].as_array().cloned().unwrap_or_default();
+                let e = src.iter().filter(|s| s["type"].as_str() == Some("exception")).count();
+                if src.len() != pubs + excs || e != excs {
+                    return Err((class("sources"), format!(
+                        "{what}: jsonext lists {} sources, {e} of them exceptions", src.len()
+                    )))
+                }
+            }
+        }
+    }
+    Ok(())
+}
+
+pub const CHAINS: [(usize, usize); 8] = [(1, 0), (2, 0), (0, 1), (0, 2), (0, 3), (1, 1), (1, 2), (2, 2)];
+
 pub fn run(_ctx: &Ctx) -> Report {
     util::quiet_panics();
     let mut rep = Report::new("exploration");
@@ -510,8 +590,11 @@ pub fn run(_ctx: &Ctx) -> Report {
         reference selection as multisets; then 269 labels (every ASCII \
         char alone and embedded, quotes, backslashes, newlines, non-BMP) \
         as TAL name and as exception comment/path for the 4 JSON \
-        formats incl. SLURM round trip; non-trivial = renderings with a \
-        non-empty admitted list or an adversarial label".into();
+        formats incl. SLURM round trip; then items whose source chain \
+        has 1-2 published objects and / or 1-3 local exceptions (8 \
+        shapes) in all 13 formats, jsonext source lists counted; \
+        non-trivial = renderings with a \
+        non-empty admitted list, an adversarial label or more than one source".into();
     let metrics = Arc::new({
         let mut m = Metrics::new();
         m.tals.push(routinator::metrics::TalMetrics::new(TalInfo::from_name("ta1".into()).into_arc()));
@@ -617,6 +700,21 @@ pub fn run(_ctx: &Ctx) -> Report {
             }
         }
     }
+    // source chains
+    for (pubs, excs) in CHAINS {
+        for f in FORMATS {
+            rep.evaluations += 1;
+            if pubs + excs > 1 { rep.nontrivial += 1; }
+            match util::catch(|| check_chain(pubs, excs, f)).unwrap_or_else(|p| Err(("chain:panic".into(), p))) {
+                Ok(()) => rep.outcome("ok:chain"),
+                Err((class, msg)) => {
+                    rep.outcome(format!("VIOLATION:{class}"));
+                    rep.violation(format!("output:{class}"), msg, json!({"kind": "chain", "pubs": pubs, "excs": excs, "format": f}));
+                }
+            }
+        }
+    }
+    rep.sample(json!({"kind": "chain", "pubs": 1, "excs": 2, "format": "jsonext"}));
     rep.sample(json!({"data": dss[37].describe(), "selection": format!("{:?}", sels[5]), "exclude_mask": 2, "format": "slurm2"}));
     rep.sample(json!({"label": "a\"b", "format": "json", "position": "tal"}));
     rep.assumptions.push("selection semantics for router keys and ASPAs \
@@ -650,6 +748,13 @@ pub fn replay(_ctx: &Ctx, v: &Value) -> Report {
             let i = v["index"].as_u64().unwrap() as usize;
             let r = check_label(&labels[i / (jf.len() * 2)], jf[(i / 2) % jf.len()], i % 2 == 1);
             println!("label {:?} format {} comment={}: {r:?}", labels[i / (jf.len() * 2)], jf[(i / 2) % jf.len()], i % 2 == 1);
+            if let Err((class, msg)) = r { rep.violation(format!("output:{class}"), msg, v.clone()); }
+        }
+        "chain" => {
+            let (pubs, excs) = (v["pubs"].as_u64().unwrap() as usize, v["excs"].as_u64().unwrap() as usize);
+            let f = v["format"].as_str().unwrap();
+            let r = check_chain(pubs, excs, f);
+            println!("chain {pubs}+{excs} {f}: {r:?}");
             if let Err((class, msg)) = r { rep.violation(format!("output:{class}"), msg, v.clone()); }
         }
         _ => {
